@@ -49,7 +49,19 @@ def make_variants(rng, spec, n, feat=None, allow_file_variants=True, prefer_file
         if prefer_file_variants and rng.random() < 0.7:
             r = 0.9
         root = copy.deepcopy(rng.choice(roots))
-        if r < 0.35:
+        if r < 0.12 and root.get('context') and not any(x['kind'] == 'file' for x in root['context']):
+            # the caller's base context object used alone here and inside a list [BASE, EXTRA] elsewhere (same python objects within a process)
+            extra = copy.deepcopy(root)
+            extra.pop('context', None)
+            S.add_context(rng, spec, extra, {**S.DEFAULT_FEAT, **(feat or {})})
+            if extra.get('context'):
+                root['context'] = list(root['context']) + list(extra['context'])
+                root['context_single'] = False
+            for rr in roots + [root]:
+                if rr.get('context'):
+                    rr['context_reuse_sources'] = True
+                    rr.pop('context_reuse', None)
+        elif r < 0.35:
             root.pop('context', None)
             S.add_context(rng, spec, root, {**S.DEFAULT_FEAT, **(feat or {})})
         elif r < 0.5 and spec.get('free_ns_words'):
